@@ -21,8 +21,10 @@ def gen(rng, tier):
     n = {"quick": 120, "thorough": 1500, "search": 150}[tier]
     cases = []
     for i in range(n):
-        k = i % 3
-        if k == 0:
+        k = i % 4
+        if k == 3:
+            cases.append(queues.thief_fills(rng))
+        elif k == 0:
             cases.append(queues.single_worker(rng))
         elif k == 1:
             cases.append(queues.random_history(rng, rng.randint(5, 50), style=rng.choice(["ties", "extreme", "mix"]), drain=True))
